@@ -169,7 +169,7 @@ func exprPaths(op model.Op) (paths []model.Path, upd *model.Update) {
 // guardOp returns the ids of the open known findings whose trigger predicate
 // the operation satisfies in the current model state. Such a step is skipped
 // (and counted), so that the search continues behind known defects.
-func guardOp(op model.Op, db *model.DB) []string {
+func guardOp(op model.Op, db *model.DB, usesV2 bool) []string {
 	if guardsOff {
 		return nil
 	}
@@ -181,6 +181,11 @@ func guardOp(op model.Op, db *model.DB) []string {
 	}
 	for _, id := range placeholderGuards(op) {
 		add(id)
+	}
+	for _, v := range op.Names {
+		if strings.Contains(v, ".") {
+			add("F-ALIASDOT")
+		}
 	}
 	t := db.Tables[op.Table]
 	paths, upd := exprPaths(op)
@@ -245,6 +250,18 @@ func guardOp(op model.Op, db *model.DB) []string {
 				add(id)
 			}
 		}
+		// F-V2EMPTY: an empty list or map written, or produced by this update
+		if usesV2 && open("F-V2EMPTY") && (op.Kind == "Put" || op.Kind == "Update" || op.Kind == "BatchWrite") {
+			next := db.Clone()
+			next.Apply(op)
+			for _, tn := range next.TableNames() {
+				for _, it := range next.Tables[tn].Items {
+					if hasEmptyLM(it) {
+						add("F-V2EMPTY")
+					}
+				}
+			}
+		}
 		// F-KEYCOLLIDE / F-NUMKEYTEXT: would this write make two distinct keys
 		// share one internal rendering?
 		if open("F-KEYCOLLIDE") || open("F-NUMKEYTEXT") {
@@ -284,4 +301,14 @@ func guardOp(op model.Op, db *model.DB) []string {
 	}
 	sort.Strings(ids)
 	return ids
+}
+
+func hasEmptyLM(it model.Item) bool {
+	found := false
+	model.WalkItem(it, func(a model.AV) {
+		if a.T == "L" && len(a.L) == 0 || a.T == "M" && len(a.M) == 0 {
+			found = true
+		}
+	})
+	return found
 }
